@@ -192,8 +192,10 @@ type Net struct {
 	// fault hooks
 	DialFault   func(from *Node, to string) DialVerdict // nil = ok
 	ListenFault func(nd *Node, addr string) error
-	taps        map[string]*Tap // by listener address
-	extPorts    map[string]bool // ports squatted by "another process"
+	// UDPDialFault makes DialUDP fail (socket exhaustion, unreachable route); called under the network lock
+	UDPDialFault func(nd *Node, raddr string) error
+	taps         map[string]*Tap // by listener address
+	extPorts     map[string]bool // ports squatted by "another process"
 
 	ConnHook func(ev string, c *Conn) // "established", "closed"
 }
